@@ -31,7 +31,7 @@ func selftest(n int) int {
 		return fatal2("build failed:\n%v", err)
 	}
 	env := &check.Env{Bins: &world.Bins{Bin: bres.Bin, RaceBin: bres.RaceBin, TrimBin: bres.TrimBin, Sources: bres.Sources}, Base: scratch, Known: loadKnown().classifyAny}
-	presets := []*gen.Params{gen.Preset("C06", true, nil), gen.Preset("C20", true, nil), gen.Preset("C10", false, nil), gen.Preset("C19", true, nil), gen.Preset("C12", true, nil), gen.Preset("C03", false, nil)}
+	presets := []*gen.Params{gen.Preset("C06", true, nil), gen.Preset("C20", true, nil), gen.Preset("C10", false, nil), gen.Preset("C19", true, nil), gen.Preset("C12", true, nil), gen.Preset("C03", false, nil), gen.Preset("C08", true, nil), gen.Preset("C01", true, nil)}
 	type res struct {
 		i     int
 		diffs string
@@ -52,6 +52,11 @@ func selftest(n int) int {
 					}
 					o := check.RunWorld(env, w)
 					t := strings.Join(o.Stats.Trace, "\n")
+					if k := strings.Index(t, check.CleanFaultMark); k >= 0 {
+						// (what Clean had rewritten when an injected fault stopped it depends on Go map
+						// order inside the library: compared up to there)
+						t = t[:k]
+					}
 					if o.Infra != "" {
 						t += "\nINFRA " + o.Infra
 					}
